@@ -23,7 +23,7 @@ def run(c):
     g = _txncfg.gen(c, "a", MaxStores=2, MaxTxns=6, MaxOps=c.pick(14, 40), Keys=c.pick(12, 20), DupStores=True, Neighbour=True)
     seq = txnlib.run_driver(c, binp, "seq", _txncfg.cfg(c, "seq", c.pick(60, 500), g))
     gf = _txncfg.gen(c, "f", MaxTxns=3, MaxOps=10, Keys=10, Slots=[2, 4], Rollbacks=False)
-    flt = txnlib.run_driver(c, binp, "fault", _txncfg.cfg(c, "fault", c.pick(1, 12), gf, max_fault=c.pick(24, 0)),
+    flt = txnlib.run_driver(c, binp, "fault", _txncfg.cfg(c, "fault", c.pick(1, 12), gf, max_fault=c.pick(24, 0), directed_max=c.pick(24, 0)),
                             timeout=c.pick(600, 3000))
     observes = 0
     classes = collections.Counter()
@@ -39,6 +39,20 @@ def run(c):
                 classes[sig] += 1
                 c.report(sig, "count %s != scan length %d for store %s (%s)" % (raw.get("count"), len(raw.get("items") or []), raw.get("s"), r["header"].get("tag", r["trace"])),
                          dict(trace=r["trace"], program=r["header"].get("program"), rejected_index=r["index"], events=r["raw"]))
+    # concurrent writers that merge (disjoint keys on shared nodes, gate schedules): after all have ended, Count() of a
+    # fresh transaction must equal the length of its scan (the count baseline must follow refetch-and-merge)
+    import _conc
+    for vi, (wl, slot, keys) in enumerate((("disjoint", 4, 6), ("split", 4, 6))):
+        conc = dict(workload=wl, txns=3, keys=keys, slot=slot, sched="gate", max_step=8)
+        ctr, _ = _conc.run_conc(c, binp, "k%d" % vi, c.pick(12, 120), conc)
+        for n, h, evs in ctr:
+            obs = [e for e in evs if e.get("ev") == "Observe" and e.get("exists")]
+            observes += len(obs)
+            if obs and obs[-1].get("count") != len(obs[-1].get("items") or []):
+                sig = "conc|%s|Observe|count-differs-from-scan" % wl
+                classes[sig] += 1
+                c.report(sig, "after concurrent %s writers: count %s != scan length %d" % (wl, obs[-1].get("count"), len(obs[-1].get("items") or [])),
+                         dict(trace=n, schedule=h.get("sched"), program=h.get("program"), events=evs))
     c.sample(dict(trace=seq[0][0], last_events=seq[0][2][-3:]))
     c.cov.update(dict(evaluations=len(seq) + len(flt), distinct_nontrivial=observes, observations=observes,
                       rejection_classes=dict(classes),
